@@ -63,6 +63,15 @@ Theorem repo_size_is_sum : forall dir procs sched,
   ((forall i pr, nth_error (st_procs s) i = Some pr -> repo_mode (p_pc pr) <> Some true) -> disk_repo s = st_repo s).
 Proof. exact repo_size_is_sum_proof. Qed.
 
+(* The repository size computed by __addPackage (returned by the installer's
+   update) and the running size of a gc that really deletes is the sum of the
+   sizes listed in repo.json at that moment. *)
+Theorem reported_size_is_sum : forall dir procs sched i pr,
+  wf_procs procs -> nth_error (st_procs (run (init dir procs) sched)) i = Some pr ->
+  (p_pc pr = IWrite \/ p_pc pr = IUnlock \/ ((p_pc pr = GMove \/ p_pc pr = GUnlock) /\ g_dry pr = false)) ->
+  p_size pr = sum_sizes (pkgs (run (init dir procs) sched)).
+Proof. exact reported_size_is_sum_proof. Qed.
+
 (* Every gc run, at every point of its collection loop: what has been
    collected so far followed by what is still queued is the sorted list of the
    scanned candidates (so the collected ones are the oldest); without --used
